@@ -292,13 +292,23 @@ class _Driver:
         its user code: the resolved body sees s0+1, s0+2, ... and steps ends at the last value seen"""
         res = _resolved(levels)
         tops = [e[2] for e in evs if e[1] == res]
-        if res is not None and levels[res]["arity"] < 0:
+        ar = None if res is None else levels[res]["arity"]
+        if ar is not None and ar <= 0 and (tops or status == [0]):
+            # nested self.step() calls are accepted: one resolved body per call
             if tops != list(range(s0 + 1, s0 + 1 + len(tops))):
                 self.fail("C05/Model.step/counter-not-advanced-before-user-code",
                           f"{what} (recursive self.step()): successive calls saw self.steps = {tops}, must see {s0 + 1}, {s0 + 2}, ...")
             if m.steps != s0 + len(tops) or not tops:
                 self.fail("C05/Model.step/steps-not-advanced-by-exactly-one",
                           f"{what} (recursive self.step()): {len(tops)} calls ran the user step, steps went from {s0} to {m.steps}")
+        elif ar is not None and ar >= 1:
+            # a nested self.step() is counted and then rejected (TypeError) before any user code
+            if any(e[2] != s0 + 1 for e in evs):
+                self.fail("C05/Model.step/counter-not-advanced-before-user-code",
+                          f"{what} (recursive self.step(), step takes {ar} parameters): bodies saw {[e[2] for e in evs]}, must see {s0 + 1}")
+            if not (m.steps == s0 + 1 or (m.steps == s0 + 2 and status == [-1, 2])):
+                self.fail("C05/Model.step/steps-not-advanced-by-exactly-one",
+                          f"{what} (recursive self.step(), step takes {ar} parameters): steps went from {s0} to {m.steps} with outcome {status}")
         elif m.steps < s0 + 1:
             self.fail("C05/Model.step/steps-not-advanced-by-exactly-one", f"{what}: steps is {m.steps} afterwards")
         if any(e[0] != i for e in evs):
